@@ -179,6 +179,7 @@ func (s *Service) Write(ctx context.Context, tags string, lit model.Iterator, no
 	for {
 		n, pos, err1 := jrnl.Write(ctx, &iw)
 		if n > 0 {
+			verifhook.At("partition.write.beforeCIndex")
 			s.onWriteCIndex(src, &iw, n, pos)
 			if !weInit {
 				we.Tags = ts
